@@ -67,7 +67,10 @@ type obs struct {
 	Panic    string `json:"panic,omitempty"`
 	Mutated  bool   `json:"mutated,omitempty"`  // the entropy's backing array changed during the call
 	Unstable string `json:"unstable,omitempty"` // a repetition of the call gave a different result
-	TeeBytes hexb   `json:"tee_bytes,omitempty"`
+	// All: for a repeated default-source NewMnemonic, every repetition's output (the parent checks
+	// each against the reference model: right word count, list words, correct checksum, no repeats)
+	All      []string `json:"all,omitempty"`
+	TeeBytes hexb     `json:"tee_bytes,omitempty"`
 }
 
 func (o obs) key() string {
@@ -150,6 +153,9 @@ func execOp(o *op, watch *[]liveBuf, name string) obs {
 		for i := 1; i < o.Repeat; i++ {
 			again := execOnce(o, nil, name)
 			if random {
+				if len(first.All) < 1000 {
+					first.All = append(first.All, string(again.Str))
+				}
 				again.Str = first.Str
 			}
 			if again.key() != first.key() {
